@@ -72,6 +72,9 @@ pub enum Token {
     StartString,
     // This token is not derived. Stores the unescaped string
     Text(String),
+    // This token is not derived. Stores an unescaped string that is not valid UTF-8
+    // (`\xx` escapes can produce arbitrary bytes); only meaningful as the payload of a blob.
+    Bytes(Vec<u8>),
     #[regex("[+-]", |lex| lex.slice().chars().next())]
     Sign(char),
     #[regex("[0-9][_0-9]*", parse_number)]
@@ -289,19 +292,19 @@ impl Iterator for Tokenizer<'_> {
                 self.next()
             }
             Ok(Token::StartString) => {
-                let mut result = String::new();
+                let mut result: Vec<u8> = Vec::new();
                 let mut lex = self.lex.to_owned().morph::<Text>();
                 loop {
                     use self::Text::*;
                     match lex.next() {
-                        Some(Ok(Text)) => result += lex.slice(),
+                        Some(Ok(Text)) => result.extend_from_slice(lex.slice().as_bytes()),
                         Some(Ok(EscapeCharacter)) => match lex.slice().chars().nth(1).unwrap() {
-                            'n' => result.push('\n'),
-                            'r' => result.push('\r'),
-                            't' => result.push('\t'),
-                            '\\' => result.push('\\'),
-                            '"' => result.push('"'),
-                            '\'' => result.push('\''),
+                            'n' => result.push(b'\n'),
+                            'r' => result.push(b'\r'),
+                            't' => result.push(b'\t'),
+                            '\\' => result.push(b'\\'),
+                            '"' => result.push(b'"'),
+                            '\'' => result.push(b'\''),
                             c => {
                                 return Some(Err(LexicalError::new(
                                     format!("Unknown escape character {c}"),
@@ -331,7 +334,7 @@ impl Iterator for Tokenizer<'_> {
                                         )
                                     })
                                 }) {
-                                Ok(c) => result.push(c),
+                                Ok(c) => result.extend_from_slice(c.encode_utf8(&mut [0; 4]).as_bytes()),
                                 Err(e) => return Some(Err(e)),
                             }
                         }
@@ -341,8 +344,7 @@ impl Iterator for Tokenizer<'_> {
                                 Ok(byte) => {
                                     // According to https://webassembly.github.io/spec/core/text/values.html#strings
                                     // \xx escape can break utf8 unicode.
-                                    let bytes = unsafe { result.as_mut_vec() };
-                                    bytes.push(byte);
+                                    result.push(byte);
                                 }
                                 Err(_) => {
                                     return Some(Err(LexicalError::new(
@@ -368,7 +370,11 @@ impl Iterator for Tokenizer<'_> {
                     }
                 }
                 self.lex = lex.morph::<Token>();
-                Some(Ok((span.start, Token::Text(result), self.lex.span().end)))
+                let token = match String::from_utf8(result) {
+                    Ok(text) => Token::Text(text),
+                    Err(e) => Token::Bytes(e.into_bytes()),
+                };
+                Some(Ok((span.start, token, self.lex.span().end)))
             }
             Ok(token) => {
                 if self.trivia.is_some() {
